@@ -258,7 +258,7 @@ func solveAll(obls []*Obligation, opts SolveOpts) *solveStats {
 	// are the members solved one by one, so every verdict that is reported as a
 	// failure still comes from the clause's own query.
 	batched := map[*task]bool{}
-	if !opts.All && !opts.NoBatch {
+	if !opts.NoBatch {
 		groups := map[string][]*task{}
 		var keys []string
 		for _, t := range tasks {
@@ -392,6 +392,11 @@ func solveAll(obls []*Obligation, opts SolveOpts) *solveStats {
 						po := opts
 						po.Stage1 = 0
 						po.Stage2 = 3 * opts.Stage2
+						if opts.All {
+							// thorough: the cross-check is done; what is left is to decide the query
+							po.All = false
+							po.Stage2 = 60 * time.Second
+						}
 						first := tasks[i].sub.Secs
 						solveQuery(tasks[i].sub, po, stats, 2000000+i)
 						tasks[i].sub.Secs += first
